@@ -274,7 +274,10 @@ def r26_4(ctx, rep):
     "outcome of one model depends on the models requested before it (pure accumulators such as `errors += 1` excepted)",
 )
 def r26_5(ctx, rep):
-    R = "R26.5"
+    per_model_state(ctx, rep, "R26.5")
+
+
+def per_model_state(ctx, rep, R):
     fn = _main_fn(ctx, R)
     cfg = CFG(fn, R)
     n = 0
@@ -447,6 +450,36 @@ def r26_8(ctx, rep):
         raise MechanismMissing(R, "fewer than 3 argument checks found before the first return of main()")
 
 
+@SPEC.rule(
+    "R26.9",
+    "every listed file is parsed: each iteration of parse_all's loop over the files passes parse_file(<that file>) and then either "
+    "merges the result or records the file as failed — no `already seen` shortcut keyed by a name skips a file, because the exit "
+    "status counts the files with parse errors and two directories may hold files of the same name",
+)
+def r26_9(ctx, rep):
+    from ..cfg import iteration_skips
+    R = "R26.9"
+    fn = ctx.func(CLI, "parse_all", R)
+    site = CLI + ":parse_all"
+    loops = [lp for lp in walk_local(fn) if isinstance(lp, ast.For) and any(is_name(c.func, "parse_file") for st in lp.body for c in calls(st))]
+    if len(loops) != 1 or not isinstance(loops[0].target, ast.Name):
+        raise MechanismMissing(R, "the loop of parse_all that calls parse_file was not found")
+    lp = loops[0]
+    v = lp.target.id
+    cfg = CFG(fn, R)
+    w = iteration_skips(cfg, lp, lambda x: x.kind == "stmt" and any(is_name(c.func, "parse_file") and c.args and norm(c.args[0]) == v for c in calls(x.ast)))
+    rep.ob(R, site, "each file of the list is handed to parse_file", w is None,
+           "an iteration over the files can end without parsing the file: its classes are missing from the tree and its syntax errors are not counted",
+           path=cfg.describe(w) if w else "")
+    w = iteration_skips(cfg, lp, lambda x: x.kind == "stmt" and any(isinstance(c.func, ast.Attribute) and c.func.attr in ("extend", "append") for c in calls(x.ast)))
+    rep.ob(R, site, "each file is merged into the tree or recorded as failed", w is None,
+           "an iteration can end with the file neither merged nor listed among the files with errors", path=cfg.describe(w) if w else "")
+    # the list iterated is the list returned (the caller counts on it)
+    rep.ob(R, site, "the loop runs over the complete file list", norm(lp.iter) in {norm(st.targets[0]) for st in walk_local(fn) if isinstance(st, ast.Assign) and
+                                                                                   isinstance(st.value, ast.Call) and is_name(st.value.func, "list_modelica_files")},
+           "the loop iterates `%s`, not the result of list_modelica_files(paths)" % norm(lp.iter))
+
+
 # -- seeded variants ---------------------------------------------------------
 from ._mut import delete_stmt_where, replace_in_func  # noqa: E402
 
@@ -549,3 +582,18 @@ def _m_optguard(mod):
         return False
 
     return mod if replace_in_func(mod, "main", edit) else None
+
+
+@SPEC.mutant("files with an already seen base name are not parsed", CLI, "R26.9", "handed to parse_file")
+def _m_seen_names(mod):
+    def edit(fn):
+        for n in ast.walk(fn):
+            if isinstance(n, ast.For) and "parse_file(" in norm(n):
+                n.body.insert(0, ast.parse("if path.name in _seen:\n    continue").body[0])
+                n.body.insert(1, ast.parse("_seen.add(path.name)").body[0])
+                i = fn.body.index(n)
+                fn.body.insert(i, ast.parse("_seen = set()").body[0])
+                return True
+        return False
+
+    return mod if replace_in_func(mod, "parse_all", edit) else None
